@@ -9,5 +9,5 @@ assert old in s, "pattern not found"
 s=s.replace(old,new,1)
 open(f,'w').write(s)
 PY
-cd /verif && VERIF_REPO=/tmp/wt_me "$@"
+cd /verif && VERIF_EVID_DIR=/tmp/mut_evid VERIF_REPO=/tmp/wt_me "$@"
 cd /tmp/wt_me && git checkout -q -- .
